@@ -273,6 +273,15 @@ func AFault(name, label string, build func(s *world.Stack, w *world.World) world
 	}}
 }
 
+// AMailFault is A with every Mailer.Send of the request failing.
+func AMailFault(name string, build func(s *world.Stack, w *world.World) world.Req, forPID string) engine.Action {
+	return engine.Action{Name: name + "!fault(mailer.Send)", Run: func(s *world.Stack, w *world.World) *world.Obs {
+		s.MailFault = true
+		defer func() { s.MailFault = false }()
+		return Exec(s, w, build(s, w), forPID)
+	}}
+}
+
 // Env builds an environment step.
 func Env(name string, f func(s *world.Stack, w *world.World)) engine.Action {
 	return engine.Action{Name: name, Run: func(s *world.Stack, w *world.World) *world.Obs {
